@@ -97,6 +97,8 @@ class Check:
         return True
 
     def finish(self):
+        global LAST_CHECK
+        LAST_CHECK = self
         wall = time.time() - self.t0
         cov = {
             "states": self.states,
@@ -125,9 +127,10 @@ class Check:
             "violations": len(self.violations),
             "repo": REPO,
         }
-        os.makedirs(os.path.join(VERIF, "evidence"), exist_ok=True)
-        with open(os.path.join(VERIF, "evidence", self.pid + ".json"), "w") as fh:
-            json.dump(ev, fh, indent=1, default=str)
+        if self.tier in ("quick", "thorough") and not os.environ.get("VERIF_NO_EVIDENCE"):   # replays never overwrite evidence
+            os.makedirs(os.path.join(VERIF, "evidence"), exist_ok=True)
+            with open(os.path.join(VERIF, "evidence", self.pid + ".json"), "w") as fh:
+                json.dump(ev, fh, indent=1, default=str)
         for k in self.known_hits:
             print("KNOWN-FINDING: property=%s %s" % (self.pid, k["what"]))
         seen = set()
@@ -141,6 +144,50 @@ class Check:
               (self.pid, self.tier, self.states, self.traces, self.events,
                self.evaluations, len(self.violations), len(self.known_hits), wall))
         return 1 if self.violations else 0
+
+
+LAST_CHECK = None
+
+TRACE_MODULES = {
+    "C01": "IpTrace", "C02": "IpTrace", "C03": "IpTrace", "C04": "IpTrace", "C05": "IpTrace", "C17": "IpTrace", "C06": "TextTrace",
+    "C07": "SecretTrace", "C08": "SecretTrace", "C09": "SecretTrace", "C10": "WordsTrace", "C12": "Pipeline", "C14": "Pipeline", "C15": "Pipeline",
+    "C13": "ProcessTrace", "C18": "JuniperTrace",
+}
+
+
+def generic_replay(pid, path, mod):
+    """--replay for checks without a dedicated replayer:
+    1. the recorded trace (if the replay file holds one) is judged again by TLC, which shows the rejection;
+    2. the check is re-run against the current tree with the recorded seed and tier (all case generation is a
+       function of the seed), and the replay succeeds in reproducing iff the same violation key appears again.
+    Exit 1 = still violated, 0 = no longer violated."""
+    global SEED
+    d = json.load(open(path))
+    print("replaying %s: key=%s" % (path, d.get("key")))
+    print("  recorded: %s" % (str(d.get("what"))[:500],))
+    case = d.get("case") or {}
+    tr = case.get("trace")
+    tm = TRACE_MODULES.get(pid)
+    if isinstance(tr, list) and tm and tr and isinstance(tr[0], dict):
+        label = case.get("label", "")
+        if pid in ("C02", "C03", "C05") and label in ("text", "files"):
+            tm = "TextTrace"
+        try:
+            validate_traces(tm, tm + ".cfg", [tr])
+            rej = all_rejections.get(0, [])
+            print("  TLC (%s) on the recorded trace: %s" % (tm, ", ".join("event %d rejected by %s" % r for r in rej) or "accepted"))
+        except MachineryError as e:
+            print("  recorded trace could not be re-validated: %s" % str(e)[:300])
+    os.environ["VERIF_SEED"] = str(d.get("seed", 0))
+    os.environ["VERIF_NO_EVIDENCE"] = "1"
+    SEED = int(d.get("seed", 0))
+    tier = d.get("tier", "quick")
+    keep = match_known
+    rc = mod.run(pid, tier)
+    ck = LAST_CHECK
+    again = [v for v in (ck.violations if ck else []) if v["key"] == d.get("key")]
+    print("replay: the violation %s on the current tree" % ("REAPPEARS" if again else "does not reappear"))
+    return 1 if again else 0
 
 
 # ---- known findings ---------------------------------------------------------
